@@ -1645,11 +1645,33 @@ func (e *sched) tryMerge(t, s *sState, relevant func(ssa.Value) bool) bool {
 	if s.ghostNext > t.ghostNext {
 		t.ghostNext = s.ghostNext
 	}
-	// heap forms
+	// a flag kept in a struct (an accumulator object with a "nothing added yet" field) separates states like a local flag
+	reach := e.reachable(t, relevant)
+	for id := range reach {
+		a1, ok := t.heap[id].(*hArray)
+		if !ok || len(a1.elems) > 8 {
+			continue
+		}
+		a2, ok := s.heap[id].(*hArray)
+		if !ok || len(a2.elems) != len(a1.elems) {
+			continue
+		}
+		for i := range a1.elems {
+			b1, ok1 := a1.elems[i].(sBool)
+			b2, ok2 := a2.elems[i].(sBool)
+			if ok1 && ok2 && b1.b != b2.b {
+				return false
+			}
+		}
+	}
+	// heap forms (objects that no live value leads to are garbage: their forms need not agree)
 	newForms := map[int]pform{}
 	for id, h := range t.heap {
 		hp, ok := h.(*hPoint)
 		if !ok {
+			continue
+		}
+		if !reach[id] {
 			continue
 		}
 		h2, ok := s.heap[id].(*hPoint)
@@ -2095,4 +2117,57 @@ func (e *sched) protoCall(states []*sState, call *ssa.Call) ([]*sState, bool) {
 func isPointerType(t types.Type) bool {
 	_, ok := t.Underlying().(*types.Pointer)
 	return ok
+}
+
+// reachable: heap objects that the relevant values of the state lead to (through pointers, slices, struct cells)
+func (e *sched) reachable(st *sState, relevant func(ssa.Value) bool) map[int]bool {
+	seen := map[int]bool{}
+	var visit func(v sVal, depth int)
+	visit = func(v sVal, depth int) {
+		if depth > 12 {
+			return
+		}
+		id := -1
+		switch x := v.(type) {
+		case sPoint:
+			id = x.id
+		case sPtr:
+			id = x.id
+		case sSlice:
+			id = x.id
+		case sSymElem:
+			id = x.id
+		case sStruct:
+			for _, f := range x.f {
+				visit(f, depth+1)
+			}
+			return
+		case []sVal:
+			for _, f := range x {
+				visit(f, depth+1)
+			}
+			return
+		}
+		if id < 0 || seen[id] {
+			return
+		}
+		seen[id] = true
+		if arr, ok := st.heap[id].(*hArray); ok {
+			for _, el := range arr.elems {
+				visit(el, depth+1)
+			}
+		}
+	}
+	for k, v := range st.vals {
+		if relevant(k) {
+			visit(v, 0)
+		}
+	}
+	for _, g := range e.globals {
+		visit(g, 0)
+	}
+	for _, a := range e.rootArgs {
+		visit(a, 0)
+	}
+	return seen
 }
